@@ -44,6 +44,7 @@ var ast2nodeExempt = map[string]string{
 	"RegExpLiteral.Literal":             "source text; Pattern/Flags are used",
 	"RegExpLiteral.Value":               "unused duplicate of the pattern (never set by the parser)",
 	"FunctionLiteral.Function":          "position",
+	"FunctionStatement.Function":        "function declarations are hoisted: the compiler reads them from the enclosing DeclarationList (FunctionDeclaration.Function); the statement itself compiles to an empty statement",
 	"BlockStatement.LeftBrace":          "position",
 	"BlockStatement.RightBrace":         "position",
 	"CallExpression.LeftParenthesis":    "position",
